@@ -559,7 +559,7 @@ func c10Probe(addr string, n int) (ok bool, timedOut bool) {
 
 func c10JT808(c *core.Collector, x *Ctx, parsing bool) {
 	c.Rule = "hostile connections against a live JT808 server (default handlers / README-style parsing handlers): random bytes; valid frames with mutated in-domain bodies for every supported ID (truncation, count/length substitution, extension, hostile additional-info items), adversarial header fields (package number 0 / > total, total 65535, length 1023, encryption bit, version/fragment bit toggles, length-field lies), corrupt / truncated frames; " +
-		"lifecycles: connect-and-close, cut after k bytes, FIN / RST / lingering close, coalesced writes; 2 canary sessions run throughout and a fresh probe connection must be served after every 10th hostile connection. evaluation = one hostile connection; distinct by hash of its bytes"
+		"lifecycles: connect-and-close, cut after k bytes, FIN / RST / lingering close, coalesced writes; 2 canary sessions run throughout, a commanded victim session whose phone hostile connections claim must stay reachable by platform commands, and a fresh probe connection must be served after every 10th hostile connection. evaluation = one hostile connection; distinct by hash of its bytes"
 	var opts []service.Option
 	if parsing {
 		opts = append(opts, service.WithCustomHandleFunc(c10Handlers))
@@ -601,6 +601,77 @@ func c10JT808(c *core.Collector, x *Ctx, parsing bool) {
 			}
 		}(k)
 	}
+	// a commanded victim: a well-behaved terminal that answers platform commands; hostile connections claim ITS phone
+	// (and are refused); afterwards the platform must still reach the victim under its key
+	victimPhone := fmt.Sprintf("%d", 9300000+x.Batch)
+	victimUp := make(chan bool, 1)
+	wg.Add(1)
+	go func() {
+		defer wg.Done()
+		t, err := svc.Dial(srv.Addr, x.Batch%2 == 1, victimPhone)
+		if err != nil {
+			victimUp <- false
+			return
+		}
+		defer t.Close()
+		t.Write(t.Frame(0x0002, 1, nil))
+		if rx, ok, to := t.Next(30 * time.Second); to || !ok || rx.F == nil || rx.F.ID != 0x8001 {
+			victimUp <- false
+			return
+		}
+		victimUp <- true
+		serial := uint16(1)
+		for !stop.Load() {
+			rx, ok, to := t.Next(100 * time.Millisecond)
+			if to {
+				continue
+			}
+			if !ok {
+				if !stop.Load() {
+					c.Violate("canary|established well-behaved session was closed by the server", "the commanded victim session (hostile connections claimed its phone)", nil)
+				}
+				return
+			}
+			if rx.F != nil && rx.F.ID == 0x8104 {
+				serial++
+				t.Write(t.Frame(0x0001, serial, []byte{byte(rx.F.Serial >> 8), byte(rx.F.Serial), 0x81, 0x04, 0}))
+			}
+		}
+	}()
+	victimOK := <-victimUp
+	if !victimOK {
+		c.Inconclusive()
+	}
+	var impersonations atomic.Int64
+	impersonate := func(ga gen.G, a, i int) {
+		t, err := svc.Dial(srv.Addr, ga.Bool(), victimPhone)
+		if err != nil {
+			return
+		}
+		x.Journal.Log(true, "impersonator %d/%d claims the victim's phone %s", a, i, victimPhone)
+		t.Write(t.Frame(core.Pick(ga.Rand, []uint16{0x0002, 0x0100, 0x0200, 0x0102}), ga.U16(), ga.Bytes(ga.Intn(40))))
+		t.Next(50 * time.Millisecond)
+		switch ga.Intn(3) {
+		case 0:
+			t.Reset()
+		default:
+			t.Close()
+		}
+		if ga.Bool() {
+			time.Sleep(time.Duration(ga.Intn(3000)) * time.Microsecond)
+		}
+		res := sendCmd(srv.G, victimPhone, consts.P8104QueryTerminalParams, nil, 3*time.Second, 3*time.Second+slackFor(3*time.Second))
+		impersonations.Add(1)
+		switch res.kind {
+		case "response":
+		case "timeout":
+			c.Inconclusive() // wall clock: the victim answers, but a loaded machine may be slower than the command's timeout
+		case "stranded":
+			c.Violate("stranded|a platform command to the victim never returned", fmt.Sprintf("service goroutines: %v", goroutineDump()), nil)
+		default:
+			c.Violate("victim|an established session can no longer be reached by platform commands after a hostile connection claimed its phone", fmt.Sprintf("attacker %d connection %d: SendActiveMessage(%s) -> %s", a, i, victimPhone, res.kind), nil)
+		}
+	}
 	n := c.N(1500, 8000)
 	g := gen.G{Rand: core.NewRand(c.Seed, "c10/"+fmt.Sprint(parsing), uint64(x.Batch))}
 	pool := c10Bodies(g)
@@ -614,6 +685,11 @@ func c10JT808(c *core.Collector, x *Ctx, parsing bool) {
 			defer awg.Done()
 			ga := gen.G{Rand: core.NewRand(c.Seed, "c10a/"+fmt.Sprint(parsing), uint64(x.Batch*16+a))}
 			for i := 0; i < n/4; i++ {
+				if i%25 == 12 && victimOK {
+					impersonate(ga, a, i)
+					c.Eval()
+					continue
+				}
 				if i%7 == 6 {
 					// a hostile terminal that waits for a platform command and answers it with malformed response-type frames
 					c10RespondHostile(srv.Addr, ga, pool, x.Journal, a, i)
@@ -669,6 +745,8 @@ func c10JT808(c *core.Collector, x *Ctx, parsing bool) {
 	c.Count("canary_rounds", rounds.Load())
 	c.Count("commands_routed_to_hostile_connections", cmds.Load())
 	c.Count("probes", int64(probes))
+	c.Count("impersonations_followed_by_a_command_to_the_victim", impersonations.Load())
+	c.Floor("impersonations_followed_by_a_command_to_the_victim", 10)
 	c.Floor("canary_rounds", 50)
 	c.Floor("probes", 20)
 }
